@@ -548,7 +548,7 @@ impl WireRig {
     /// wait (real time, clock untouched) until the daemon's session task of the current connection has ended
     async fn wait_task_end(&mut self) -> Result<(), Failure> {
         let Some(mut c) = self.client.take() else { return Ok(()) };
-        for _ in 0..4000 {
+        for _ in 0..12000 {
             self.settle().await;
             let mut buf = [0u8; 8192];
             while let Ok(n) = c.stream.try_read(&mut buf) {
@@ -602,7 +602,7 @@ impl WireRig {
         let task = self.client.as_mut().and_then(|c| c.task.take());
         self.client = None;
         if let Some(t) = task {
-            for _ in 0..4000 {
+            for _ in 0..12000 {
                 self.settle().await;
                 if t.is_finished() {
                     return Ok(());
@@ -677,7 +677,7 @@ impl WireRig {
         let task = self.client.as_mut().and_then(|c| c.task.take());
         self.client = None; // closes the socket (RST when linger 0)
         if let Some(t) = task {
-            for _ in 0..4000 {
+            for _ in 0..12000 {
                 self.settle().await;
                 if t.is_finished() {
                     return Ok(());
